@@ -44,6 +44,7 @@ type pageServer struct {
 type futurePage struct {
 	at    time.Duration
 	items []int
+	chain [][]int // pages linked from this future page through next links (the link to the future is on the last one)
 }
 
 type simIterator struct {
@@ -67,13 +68,38 @@ type simPage struct {
 	idx    int // index in srv.pages, or -1 for a future page
 	items  []int
 	future bool
+	fchain [][]int // future page: the pages still to come through next links
 }
 
 func (p *simPage) HasNext() bool {
 	if p.future {
-		return false
+		return len(p.fchain) > 0
 	}
 	return p.idx+1 < len(p.srv.pages)
+}
+
+// nextOfFuture fetches the next page of the chain hanging off a future page.
+func (p *simPage) nextOfFuture(ctx context.Context) (*simPage, error) {
+	s := p.srv
+	s.fetches++
+	if err := ctx.Err(); err != nil {
+		return nil, err
+	}
+	if s.latency > 0 {
+		if s.ignoreCtx {
+			time.Sleep(s.latency)
+		} else {
+			select {
+			case <-ctx.Done():
+				return nil, ctx.Err()
+			case <-time.After(s.latency):
+			}
+		}
+	}
+	if len(p.fchain) == 0 {
+		return nil, errors.New("no such page")
+	}
+	return &simPage{srv: s, idx: -1, items: p.fchain[0], future: true, fchain: p.fchain[1:]}, nil
 }
 func (p *simPage) GetItemIterator() (pagination.IIterator, error) {
 	if !p.future && p.srv.failIter == p.idx {
@@ -110,6 +136,13 @@ func (s *pageServer) fetch(ctx context.Context, idx int) (*simPage, error) {
 }
 
 func (p *simPage) GetNext(ctx context.Context) (pagination.IPage, error) {
+	if p.future {
+		np, err := p.nextOfFuture(ctx)
+		if err != nil {
+			return nil, err
+		}
+		return np, nil
+	}
 	np, err := p.srv.fetch(ctx, p.idx+1)
 	if err != nil {
 		return nil, err
@@ -136,7 +169,7 @@ func (s *pageServer) future(ctx context.Context) (*simPage, error) {
 	if s.nextFuture < len(s.futures) && s.futures[s.nextFuture].at <= now {
 		f := s.futures[s.nextFuture]
 		s.nextFuture++
-		return &simPage{srv: s, idx: -1, items: f.items, future: true}, nil
+		return &simPage{srv: s, idx: -1, items: f.items, future: true, fchain: f.chain}, nil
 	}
 	return &simPage{srv: s, idx: -1, items: nil, future: true}, nil
 }
@@ -214,7 +247,20 @@ func runC19(rc *RunCtx) {
 				pg[j] = next
 				next++
 			}
-			srv.futures = append(srv.futures, futurePage{at: t, items: pg})
+			fp := futurePage{at: t, items: pg}
+			// one future page in four continues through next links (0..2 pages, possibly empty ones)
+			if ch.Intn("fchain", 4) == 0 {
+				for k, nk := 0, 1+ch.Intn("fchainlen", 2); k < nk; k++ {
+					cn := ch.Intn("fchainitems", 4)
+					cp := make([]int, cn)
+					for j := range cp {
+						cp[j] = next
+						next++
+					}
+					fp.chain = append(fp.chain, cp)
+				}
+			}
+			srv.futures = append(srv.futures, fp)
 		}
 		dryAt = time.Duration(ch.Intn("dryat", 1500))*time.Millisecond + 1
 	}
@@ -245,6 +291,9 @@ func runC19(rc *RunCtx) {
 	}
 	for _, f := range srv.futures {
 		model = append(model, f.items...)
+		for _, cp := range f.chain {
+			model = append(model, cp...)
+		}
 	}
 	// items that are reachable without waiting for the future (static part, up to the first failing page)
 	reachable := staticItems
@@ -286,6 +335,13 @@ func runC19(rc *RunCtx) {
 			return pg, nil
 		}
 		nextStatic := func(c context.Context, cur pagination.IStaticPage) (pagination.IStaticPage, error) {
+			if sp := cur.(*simPage); sp.future {
+				np, err := sp.nextOfFuture(c)
+				if err != nil {
+					return nil, err
+				}
+				return np, nil
+			}
 			pg, err := srv.fetch(c, cur.(*simPage).idx+1)
 			if err != nil {
 				return nil, err
@@ -569,10 +625,14 @@ func runC19(rc *RunCtx) {
 	must := staticItems
 	var lastArrival time.Duration
 	for _, f := range srv.futures {
-		if f.at <= dryAt+grace-slack {
-			must += len(f.items)
+		n := len(f.items)
+		for _, cp := range f.chain {
+			n += len(cp)
 		}
-		if len(f.items) > 0 {
+		if f.at <= dryAt+grace-slack-time.Duration(len(f.chain))*(srv.latency+backoff) {
+			must += n
+		}
+		if n > 0 {
 			lastArrival = f.at
 		}
 	}
